@@ -3,6 +3,7 @@ package main
 import (
 	"go/token"
 	"go/types"
+	"os"
 	"sort"
 	"strings"
 
@@ -25,6 +26,18 @@ func pkgConstString(p *Program, pkg, name string) (string, bool) {
 	}
 	if c, ok := pk.Types.Scope().Lookup(name).(*types.Const); ok {
 		return strings.Trim(c.Val().ExactString(), `"`), true
+	}
+	// renamed: a constant of the package that is new relative to the reference tree and has the reference value
+	if want, ok := theRefTable().Consts[pkg][name]; ok && os.Getenv("VGW_NORENAME") == "" {
+		sc := pk.Types.Scope()
+		for _, n := range sc.Names() {
+			if _, known := theRefTable().Consts[pkg][n]; known {
+				continue
+			}
+			if c, ok := sc.Lookup(n).(*types.Const); ok && strings.Trim(c.Val().ExactString(), `"`) == want {
+				return want, true
+			}
+		}
 	}
 	return "", false
 }
@@ -194,7 +207,34 @@ func runC08(p *Program, r *Report) {
 	mpd, _ := pkgConstString(p, "backend/posix", "metaTmpMultipartDir")
 	for _, name := range fns {
 		f := p.Func(name)
-		hs := callsTo(f, sum)
+		// the hashes that name the upload's directory: their value is joined below the multipart root (other
+		// sha256 sums in these functions, e.g. of a copy source's key for its version directory, are not upload paths)
+		var hs []ssa.CallInstruction
+		for _, c := range callsTo(f, sum) {
+			under := false
+			for _, j := range callsTo(f, "path/filepath.Join") {
+				hasSum, hasRoot := false, false
+				for _, a := range j.Common().Args {
+					for _, rt := range Origins(a, nil) {
+						if rt.Kind == "call" && rt.Call == c.Value() {
+							hasSum = true
+						}
+						if rt.Kind == "const" && strings.Trim(rt.Desc, `"`) == mpd {
+							hasRoot = true
+						}
+					}
+					if sl, ok := a.(*ssa.Slice); ok {
+						_ = sl
+					}
+				}
+				if hasSum && hasRoot {
+					under = true
+				}
+			}
+			if under {
+				hs = append(hs, c)
+			}
+		}
 		helper := callsTo(f, posixP+"checkUploadIDExists", "(*backend/scoutfs.ScoutFS).checkUploadIDExists", posixP+"retrieveUploadId")
 		if len(hs) == 0 && len(helper) == 0 {
 			r.Viol("R-C08-1", name+"/hash", p.Pos(f.Pos()), "the upload directory is not derived from sha256(key) (nor through checkUploadIDExists)")
